@@ -224,6 +224,23 @@ func (rw *rewriter) file(f *ast.File, yields bool) {
 				if yields && d.Recv != nil && len(d.Recv.List) == 1 && yieldReceivers[recvBase(d.Recv.List[0].Type)] {
 					call := &ast.ExprStmt{X: &ast.CallExpr{Fun: sel("vsched", "Yield"),
 						Args: []ast.Expr{sel("vsched", "KYield"), ast.NewIdent("nil")}}}
+					if d.Name.Name == "Copy" {
+						// Copy reads two fields of its source one after the other
+						// without a lock: a goroutine can be descheduled between
+						// the two loads, so each assignment is a step of its own
+						var body []ast.Stmt
+						for i, st := range d.Body.List {
+							if _, isAssign := st.(*ast.AssignStmt); isAssign && i > 0 {
+								if _, prevAssign := d.Body.List[i-1].(*ast.AssignStmt); prevAssign {
+									body = append(body, &ast.ExprStmt{X: &ast.CallExpr{Fun: sel("vsched", "Yield"),
+										Args: []ast.Expr{sel("vsched", "KYield"), ast.NewIdent("nil")}}})
+									rw.st.Yields++
+								}
+							}
+							body = append(body, st)
+						}
+						d.Body.List = body
+					}
 					d.Body.List = append([]ast.Stmt{call}, d.Body.List...)
 					rw.st.Yields++
 				}
